@@ -107,6 +107,7 @@ func (w *c02World) evalAgg(st *c02Streams, a *c02Agg, mut string, honest bool) {
 				return err
 			})
 			meta := w.meta("aggqc", mut, a.term, vi, cache, o)
+			w.warmCompare("aggqc", cache, o, meta)
 			hd, hv := uint64(0), uint64(0)
 			var hq *c02QC
 			if o == "ok" {
@@ -176,7 +177,7 @@ func (w *c02World) evalAgg(st *c02Streams, a *c02Agg, mut string, honest bool) {
 			}
 
 			// BatchVerify directly on the crypto base with the same batch (cache off only)
-			if !cache && !w.repeat && w.grow == nil && a.sig.obj != nil {
+			if !cache && !w.repeat && w.grow == nil && w.warm == nil && a.sig.obj != nil {
 				batch := map[hotstuff.ID][]byte{}
 				var bt []string
 				for _, k := range c02SortedKeys(a.qcs) {
@@ -195,7 +196,7 @@ func (w *c02World) evalAgg(st *c02Streams, a *c02Agg, mut string, honest bool) {
 			}
 
 			// VerifyAnyQC on proposals carrying this AggregateQC (aggregate QCs enabled / disabled)
-			if vi == 0 && !w.repeat && w.grow == nil {
+			if vi == 0 && !w.repeat && w.grow == nil && w.warm == nil {
 				var bqcs []*c02QC
 				if hq != nil {
 					bqcs = append(bqcs, hq)
@@ -651,4 +652,140 @@ func c02PopStream(w *c02World, st *c02Streams) {
 		w.evalTC(st, w.mkTC(w.render(c02Spec{parts: w.genuine(good, mV)}), 4), "pop:honest-without-bad-member", true)
 		w.evalAgg(st, agg(good), "pop:honest-without-bad-member", true)
 	}
+}
+
+// c02WarmStream: "single signatures first, then the certificates built from them".  For a set C of
+// members, a long-lived cache-ON Authority first signs (Cache.Sign, when replica 1 is in C) / verifies
+// one by one the single signatures of C over the block, the view and the timeout messages; then QCs,
+// TCs and AggQCs are presented whose entries repeat a cached signature, mix cached and uncached ones
+// with adjacent and non-adjacent repeats, or are legitimately distinct.  Every verdict must be the one
+// of a cache-less Authority and respect the ground truth (distinct signers only).
+func c02WarmStream(w *c02World, st *c02Streams, subsets [][]uint64) {
+	n, q := w.n, w.q
+	gQC := w.mkQC(w.render(c02Spec{absent: true}), 0, "G")
+	qcOf := func(uint64) *c02QC { return gQC }
+	for si, C := range subsets {
+		// a fresh configuration + crypto base + Authority with a large cache for verifier 1
+		cfg := core.NewRuntimeConfig(hotstuff.ID(w.ids[0]), w.keys[0], core.WithCache(512))
+		base, err := crypto.New(cfg, w.scheme)
+		if err != nil {
+			panic(err)
+		}
+		for j := range w.infos {
+			info := w.infos[j]
+			cfg.AddReplica(&info)
+		}
+		A := NewAuthority(cfg, w.chain, base)
+		view := uint64(20 + si) // a fresh view per subset so that Cache.Sign is exercised with new bytes
+		mB, mV := w.mBlock("B1"), w.mView(view)
+		inC := map[uint64]bool{}
+		for _, c := range C {
+			inC[c] = true
+		}
+		var U []uint64
+		for k := 1; k <= n; k++ {
+			if !inC[uint64(k)] {
+				U = append(U, uint64(k))
+			}
+		}
+		// warm-up: replica 1's own view signature through Cache.Sign, everything else through Verify
+		if inC[1] && w.scheme != crypto.NameBLS12 {
+			if sig, err := A.Sign(mV.bytes); err == nil {
+				var raw []byte
+				switch s := sig.(type) {
+				case crypto.Multi[*crypto.ECDSASignature]:
+					raw = s[0].ToBytes()
+				case crypto.Multi[*crypto.EDDSASignature]:
+					raw = s[0].ToBytes()
+				}
+				w.signMemo[fmt.Sprintf("%d|%x", 1, mV.bytes)] = raw
+				w.sigTable[string(raw)] = c02Contrib{w.id(1), mV}
+			}
+		}
+		warmed := 0
+		for _, c := range C {
+			for _, m := range []c02Msg{mB, mV, w.mTimeout(c, 6, gQC)} {
+				single := w.render(c02Spec{parts: []c02Part{{label: c, signer: c, msg: m}}})
+				if o := c02Run(func() error { return A.Verify(single.obj, m.bytes) }); o != "ok" {
+					w.oracle(false, "warm:single-signature-rejected", "a genuine single signature of a member was not accepted: "+o,
+						map[string]any{"scheme": w.scheme, "n": n, "signer": w.id(c), "message": m.term()})
+				}
+				warmed++
+			}
+		}
+		w.warm = A
+		w.warmDesc = fmt.Sprintf("singles of members %v over block, view %d and timeout messages verified/signed first", C, view)
+		w.v.CountN("warm:single-signatures-cached", warmed)
+
+		others := func(first uint64, prefer, then []uint64, k int) []uint64 { // k distinct ids other than first
+			var out []uint64
+			for _, l := range [][]uint64{prefer, then} {
+				for _, x := range l {
+					if x != first && len(out) < k {
+						out = append(out, x)
+					}
+				}
+			}
+			return out
+		}
+		type fam struct {
+			name   string
+			ids    []uint64
+			honest bool
+			agg    bool
+		}
+		var fams []fam
+		if len(C) > 0 {
+			c0 := C[0]
+			fams = append(fams, fam{"cached-signature-repeated-q-times", c02Rep(c0, q), q == 1, true})
+			if q >= 2 {
+				fams = append(fams, fam{"cached-repeated-adjacent-plus-others", append([]uint64{c0, c0}, others(c0, U, C, q-2)...), false, true})
+				fams = append(fams, fam{"cached-repeated-adjacent-plus-full-quorum-length", append([]uint64{c0, c0}, others(c0, U, C, q-1)...), false, false})
+			}
+			if q >= 3 {
+				mid := others(c0, U, C, q-2)
+				fams = append(fams, fam{"cached-repeated-non-adjacent", append(append([]uint64{c0}, mid...), c0), false, true})
+			}
+			if len(C) >= 2 && q >= 2 {
+				fams = append(fams, fam{"all-cached-with-repeat", append(append([]uint64(nil), C[:min(len(C), q-1)]...), C[0]), false, false})
+			}
+			if len(C) >= q {
+				fams = append(fams, fam{"all-distinct-cached", append([]uint64(nil), C[:q]...), true, true})
+			}
+		}
+		if len(U) > 0 && q >= 2 {
+			fams = append(fams, fam{"uncached-repeated-among-cached", append([]uint64{U[0], U[0]}, others(U[0], C, U, q-2)...), false, false})
+		}
+		fams = append(fams, fam{"distinct-first-q", c02Range(1, q), true, true})
+		if q >= 3 {
+			fams = append(fams, fam{"non-adjacent-repeat-1..q-1,1", append(c02Range(1, q-1), 1), false, true})
+		}
+		for _, f := range fams {
+			name := fmt.Sprintf("warm:%s", f.name)
+			honest := f.honest && c02DistinctIDs(f.ids) >= q
+			w.evalQC(st, w.mkQC(w.render(c02Spec{parts: w.genuine(f.ids, mB)}), 1, "B1"), name, honest)
+			w.evalTC(st, w.mkTC(w.render(c02Spec{parts: w.genuine(f.ids, mV)}), view), name, honest)
+			if f.agg {
+				w.evalAgg(st, w.mkAgg(c02QCMap(f.ids, qcOf), w.render(c02Spec{parts: w.aggParts(f.ids, 6, qcOf)}), 6), name, honest)
+			}
+		}
+		w.warm = nil
+	}
+}
+
+func c02DistinctIDs(l []uint64) int { return c02Distinct(l) }
+
+// c02Subsets returns all subsets of 1..n (n small) in a fixed order.
+func c02Subsets(n int) [][]uint64 {
+	var out [][]uint64
+	for mask := 0; mask < 1<<n; mask++ {
+		var s []uint64
+		for k := 0; k < n; k++ {
+			if mask&(1<<k) != 0 {
+				s = append(s, uint64(k+1))
+			}
+		}
+		out = append(out, s)
+	}
+	return out
 }
